@@ -107,7 +107,17 @@ RULE = (
     "clauses for function values scaled by 1e-14 .. 1e14, 1e-50, 1e-290 and radial scales 1e-5 .. 1e5 (all tolerances relative to the data); centres "
     "translated by 2^10 .. 2^20 against the untranslated problem; every array handed out by the decomposition / interpolation routes edited in place "
     "and requested again; the interpolant on the whole sphere of each radial shell, at the Cartesian origin, on shells on the axes; the Cartesian "
-    "report = chain rule of the spherical report wherever |r| >= 1e-10, |phi| >= 1e-10; two interpolants alive; single-shell grids"
+    "report = chain rule of the spherical report wherever |r| >= 1e-10, |phi| >= 1e-10; two interpolants alive; single-shell grids. "
+    "Round 4 (corr and oracle run as independent parts; an exception in one never hides the others): in every run mixed-degree grids with non-monotone "
+    "shell sizes whose total is n_shells times the size of one shell (Lebedev [9, 7, 11] = 38 + 26 + 50 = 3 * 38, the mean-sized shell first / inside / "
+    "last, other methods, four shells); func_vals stacked along leading axes 1, 2, n_shells, shell size, (2, 1), (1, 2), (2, 3) and 1, 2, 3, n_shells, "
+    "(l_max//2+1)^2 evaluation points; radial points / weights, degrees, centre, aim_weights handed to the constructors as read-only / strided / "
+    "negative-stride / integer-valued / int32 / float32 / list objects; both degrees and sizes (d_sectors and s_sectors) at once, one degree / size for "
+    "all shells, omitted / None / explicit-default arguments; one func_vals and one points object (views into larger arrays, bytes around them checked) "
+    "for repeated requests, one OneDGrid and one degrees list for all atoms of a molecule; complex128 / complex64 / longdouble function values "
+    "(linearity; the Cartesian report of complex data is recorded as information); rejected requests (wrong sizes, orders, shapes, index, kind) before and "
+    "between accepted ones; radial grids made by the library's transforms (r from 1e-5 to 1e5, r^2 w up to 1e14; nodes at the trimmed 1e16 are "
+    "outside the measured envelope), nuclei 0.3 and 40 bohr apart in one molecule"
 )
 TRUSTED_BASE = [
     "Lean 4.33 kernel; axioms propext, Classical.choice, Quot.sound only (audited per theorem)",
@@ -294,11 +304,42 @@ OPNAME = {"iac": "integrate_angular_coordinates", "avg": "spherical_average", "r
 FLAGS = [(0, False, False), (1, False, False), (1, True, False), (2, False, True)]
 
 
+KINDED_SRC = '''
+def kinded(values, kind, dtype=float):
+    """the values as the array / container kind named (round 4, class 14): what the grid object is built from"""
+    a = np.array(values, dtype=dtype)
+    if kind in (None, "float64", "int64"):
+        return a
+    if kind in ("float32", "int32"):
+        return a.astype(kind)
+    if kind == "readonly":
+        a.setflags(write=False)
+        return a
+    if kind == "strided":
+        big = np.zeros((2 * a.shape[0] + 1,) + a.shape[1:], dtype=a.dtype)
+        big[1::2] = a
+        return big[1::2]
+    if kind == "negative-stride":
+        return a[::-1].copy()[::-1]
+    if kind == "fortran":
+        return np.asfortranarray(a)
+    if kind == "list":
+        return a.tolist()
+    if kind == "int-valued":          # integer dtype holding the (integer) values
+        assert np.all(a == np.rint(a))
+        return np.rint(a).astype(np.int64)
+    raise ValueError(kind)
+'''
+exec(KINDED_SRC)
+
+
 def _build(M, info):
-    """a new grid object from the recorded parameters (constructor, or the recorded alternative construction route)."""
+    """a new grid object from the recorded parameters (constructor, or the recorded alternative construction route); info["kinds"]
+    (round 4) names the dtype / container kind of the radial points, radial weights, degrees and centre handed to the constructors."""
     ag, od = M[0], M[1]
-    rg = od.OneDGrid(np.array(info["r"], dtype=float), np.array(info["w"], dtype=float), (0, np.inf))
-    kw = dict(center=np.array(info["center"], dtype=float), rotate=int(info["rotate"]), method=info["method"])
+    kinds = info.get("kinds", {})
+    rg = od.OneDGrid(kinded(info["r"], kinds.get("r")), kinded(info["w"], kinds.get("w")), (0, np.inf))
+    kw = dict(center=kinded(info["center"], kinds.get("center")), rotate=int(info["rotate"]), method=info["method"])
     route = info.get("route", "ctor")
     if route == "pruned":
         return ag.AtomGrid.from_pruned(rg, info["radius"], info["r_sectors"], info["d_sectors"], **kw)
@@ -308,7 +349,20 @@ def _build(M, info):
         return ag.AtomGrid.from_preset(info["atnum"], info["preset"], rg, kw["center"], kw["rotate"], kw["method"])
     if route == "sizes":
         return ag.AtomGrid(rg, None, sizes=list(info["sizes"]), **kw)
-    return ag.AtomGrid(rg, degrees=list(info["degs"]), **kw)
+    import warnings
+    with warnings.catch_warnings():
+        warnings.simplefilter("ignore")
+        if route == "both":              # round 4 (class 15): both alternatives at once — the documentation says the sizes win
+            return ag.AtomGrid(rg, degrees=list(info["ignored_degs"]), sizes=list(info["sizes"]), **kw)
+        if route == "pruned-both":       # ... and s_sectors win over d_sectors
+            return ag.AtomGrid.from_pruned(rg, info["radius"], r_sectors=info["r_sectors"], d_sectors=info["ignored_d_sectors"], s_sectors=info["s_sectors"], **kw)
+        if route == "one-degree":        # a single degree / size for every shell
+            return ag.AtomGrid(rg, degrees=[int(info["degs"][0])], **kw)
+        if route == "one-size":
+            return ag.AtomGrid(rg, sizes=[int(info["sizes"][0])], **kw)
+    dk = kinds.get("degs")
+    degs = kinded(info["degs"], dk, dtype=np.int64) if dk else list(info["degs"])
+    return ag.AtomGrid(rg, degrees=degs, **kw)
 
 
 def _run_op(g, op, f, pts):
@@ -694,10 +748,10 @@ def _corr_round2(ctx, M, add):
             ctx.fail("corr", "atomgrid:raises", f"{what}: the implementation raised {type(e).__name__}: {e}", witness=dict(info=info, traceback=traceback.format_exc()[-1500:]))
 
     for ig in range(ctx.n(4, 30)):
-        g, info = _atom_grid(ctx, M, n=rng.choice([2, 3, 4]), cap=9)
+        g, info = _atom_grid(ctx, M, n=rng.choice([2, 3, 4]), cap=9) if ig != 1 else _agg_grid(ctx, M, method="lebedev")          # round 4 (class 20)
         guarded("dtype / container variants", info, lambda: _r2_dtype(ctx, M, add, g, info, all_kinds=ig < 2))
     for ih in range(ctx.n(6, 40)):
-        g, info = _atom_grid(ctx, M, n=rng.choice([2, 3, 4]), cap=9)
+        g, info = _atom_grid(ctx, M, n=rng.choice([2, 3, 4]), cap=9) if ih % 4 != 1 else _agg_grid(ctx, M, rotate=rng.choice([0, 21]), zero_kind=rng.choice(["none", "zero"]))
         guarded("call history on one grid object", info, lambda: _r2_history(ctx, M, add, g, info))
     for ip in range(ctx.n(6, 40)):
         guarded("two grids alive at once", None, lambda: _r2_pair(ctx, M, add))
@@ -944,6 +998,391 @@ def _r3_options(ctx, M, g, info):
             break
 
 
+# ----------------------------------------------------------------------------------------------
+# round 4: crash-proof parts; classes 14 (kinds of the arrays held inside the grid object), 15 (argument combinations), 16 (one argument
+# object for several requests, views into larger caller arrays), 17 (complex / extended-precision function values), 18 (a call that raises
+# leaves no trace), 19 (radial grids from the real transforms, close and far nuclei), 20 (unequal shapes, sizes 1 and 2, non-monotone
+# shell sizes whose aggregates coincide with a uniform grid's)
+# ----------------------------------------------------------------------------------------------
+def _lib_raised(exc, M):
+    """did the exception come out of the library (a frame of its traceback lies in the grid package)?"""
+    import os
+    import traceback
+    root = os.path.dirname(os.path.abspath(M[0].__file__))
+    return any(os.path.abspath(fr.filename).startswith(root) for fr in traceback.extract_tb(exc.__traceback__))
+
+
+class _Parts:
+    """independent parts of corr / oracle: an exception in one part never hides what the others find. The library raising inside the
+    envelope is a failing input of its own; anything else (harness, driver) is kept and raised again after every part has run."""
+
+    def __init__(self, ctx, M, kind):
+        self.ctx, self.M, self.kind, self.first = ctx, M, kind, None
+
+    def run(self, key, fn, witness=None):
+        import traceback
+        try:
+            fn()
+        except Exception as e:  # noqa: BLE001
+            if _lib_raised(e, self.M):
+                self.ctx.fail(self.kind, key + ":raises", f"{key}: the library raised {type(e).__name__}: {e}", witness=dict(witness=witness, traceback=traceback.format_exc()[-1500:]))
+            elif self.first is None:
+                self.first = e
+
+    def finish(self):
+        if self.first is not None:
+            raise self.first
+
+
+_AGG = {}
+
+
+def _aggregate_degs(M, method):
+    """class 20: degree sequences (3 or 4 shells) with non-monotone shell sizes in which an aggregate coincides with a uniform grid's: the
+    total size is n_shells times the size of one of the shells (the mean shell size is a shell size), that shell first / last / inside.
+    E.g. Lebedev degrees [9, 7, 11] (sizes 38, 26, 50)."""
+    if method not in _AGG:
+        ang = M[2]
+        size = {d: int(ang.AngularGrid(degree=d, method=method).size) for d in DEGS[method] if d <= 15}
+        ds = sorted(size)
+        out = []
+        import itertools
+        for n in (3, 4):
+            for seq in itertools.product(ds, repeat=n):
+                sz = [size[d] for d in seq]
+                if len(set(seq)) < 2 or sz == sorted(sz) or sz == sorted(sz, reverse=True):
+                    continue
+                if sum(sz) % n == 0 and sum(sz) // n in sz:
+                    out.append(list(seq))
+        if not out:      # no coincidence in this table: plain non-monotone sequences
+            out = [[ds[1], ds[0], ds[2]], [ds[2], ds[0], ds[1]]]
+        _AGG[method] = out
+    return _AGG[method]
+
+
+def _agg_grid(ctx, M, method=None, first_mean=None, **kw):
+    rng = ctx.rng
+    method = method or rng.choice(["lebedev", "lebedev", "spherical", "maxdet"])
+    seqs = _aggregate_degs(M, method)
+    if first_mean is not None:
+        ang = M[2]
+        sel = [q for q in seqs if (int(ang.AngularGrid(degree=q[0], method=method).size) * len(q) == sum(int(ang.AngularGrid(degree=d, method=method).size) for d in q)) == first_mean]
+        seqs = sel or seqs
+    degs = rng.choice(seqs)
+    kw.setdefault("zero_kind", "none")
+    return _atom_grid(ctx, M, n=len(degs), method=method, degs=degs, **kw)
+
+
+def _r4_shapes(ctx, M, add, g, info):
+    """class 20: leading axes of func_vals of sizes 1, 2, n_shells, the size of a shell, two leading axes; numbers of evaluation points
+    1, 2, 3 (a (3, 3) array), n_shells, the number of harmonics rows; every row / point against the one-at-a-time request."""
+    rng = ctx.rng
+    N, n = g.size, g.n_shells
+    s0 = min(int(g.indices[1] - g.indices[0]), 14)
+    base = ctx.np_rng.normal(size=(max(n, s0, 6), N))
+    rows1 = [np.asarray(g.integrate_angular_coordinates(base[k].copy()), dtype=float) for k in range(base.shape[0])]
+    for lead in [(1,), (2,), (n,), (s0,), (2, 1), (1, 2), (2, 3)]:
+        k = int(np.prod(lead))
+        arr = base[:k].reshape(lead + (N,)).copy()
+        ctx.count(["shapes", "func_vals", list(lead), info], nontrivial=True, tag="shapes:func_vals:" + "x".join(map(str, lead)))
+        got = np.asarray(g.integrate_angular_coordinates(arr), dtype=float)
+        want = np.array(rows1[:k]).reshape(lead + (n,))
+        if got.shape != want.shape or not _cmp_arrays(got, want, 1e-13, scale=float(np.max(np.abs(want))) + 1e-300):
+            ctx.fail("corr", "atomgrid.integrate_angular_coordinates:shapes", f"func_vals of shape {lead + (N,)} on a grid with {n} shells of sizes {np.diff(g.indices).tolist()}: result "
+                     f"{got.shape} differs from the row-by-row computation {want.shape}", witness=dict(info=info, lead=list(lead)))
+    gt = _grid_tokens(M, g)
+    add(f"C09.integrate {gt} {fvec(base[1])}", _chk_integrate(ctx, "atomgrid.integrate_angular_coordinates:shapes", "row of a 2-D func_vals", info, rows1[1], float(np.max(np.abs(base[1])))))
+    if n < 2:
+        return
+    F = g.interpolate(base[0].copy())
+    nrows = (int(g.l_max) // 2 + 1) ** 2
+    allp = _eval_points(rng, g, nrows + 3)
+    for m in sorted({1, 2, 3, n, nrows}):
+        P = allp[:m].copy()
+        ctx.count(["shapes", "points", m, info], nontrivial=True, tag=f"shapes:points:{'nrows' if m == nrows else 'n_shells' if m == n else m}")
+        for fl in FLAGS + [(1, False, True)]:
+            got = np.asarray(F(P, *fl), dtype=float)
+            one = [np.asarray(F(P[k:k + 1].copy(), *fl), dtype=float) for k in range(m)]
+            if fl[0] == 1 and not fl[2] and fl[1]:
+                want = np.concatenate([np.array([o[c] for o in one]) for c in range(3)])          # hstack: all d/dr, then all d/dtheta, then all d/dphi
+            elif fl[0] == 1 and not fl[2]:
+                want = np.vstack(one)
+            else:
+                want = np.concatenate(one)
+            if got.shape != want.shape or not _cmp_arrays(got, want, 1e-12, scale=None, atol=1e-13 * (float(np.max(np.abs(base[0]))) + 1)):
+                ctx.fail("corr", "atomgrid.interpolate:shapes", f"{m} evaluation points (grid: {n} shells, {nrows} harmonics rows), deriv={fl[0]}, deriv_spherical={fl[1]}, only_radial_deriv={fl[2]}: "
+                         f"the report {got.shape} differs from the points asked one at a time {want.shape}", witness=dict(info=info, points=P))
+
+
+KIND_SETS = [dict(r="readonly", w="strided"), dict(r="negative-stride", w="readonly", center="list"), dict(r="strided", w="negative-stride", degs="int32", center="readonly"),
+             dict(r="int-valued", w="int-valued", center="int-valued", degs="int64"), dict(center="float32", degs="strided"), dict(r="float32", w="float32")]
+
+
+def _kind_info(ctx, M, kinds):
+    """parameters whose values are representable in every kind asked for"""
+    rng = ctx.rng
+    _, info = _agg_grid(ctx, M) if rng.random() < 0.5 else _atom_grid(ctx, M, n=rng.choice([2, 3, 4]), cap=9, zero_kind=rng.choice(["none", "zero"]))
+    info = dict(info)
+    if kinds.get("r") == "int-valued":
+        n = info["n"]
+        start = 0 if info["zero"] != "none" else 1
+        info["r"] = [float(start + k) for k in range(n)]
+        info["w"] = [float(rng.choice([1, 2, 3])) for _ in range(n)]
+        info["center"] = [float(rng.choice([-2, 0, 1, 3])) for _ in range(3)]
+    if kinds.get("r") == "float32":
+        info["r"] = [float(np.float32(x)) for x in info["r"]]
+        info["w"] = [float(np.float32(x)) for x in info["w"]]
+    if kinds.get("center") == "float32":
+        info["center"] = [float(np.float32(x)) for x in info["center"]]
+    return info
+
+
+def _r4_object_kinds(ctx, M, add, kinds):
+    """class 14: the radial points / weights, the degrees and the centre the grid object is built from in other dtypes and container
+    kinds; every entry point against the grid built from the same values as float64 C-contiguous arrays (bit for bit; float32 radial
+    data: the library forms r^2 w in single precision, agreement to 5e-6 demanded, recorded as information as for C01's parameters)."""
+    rng = ctx.rng
+    info0 = _kind_info(ctx, M, kinds)
+    infok = dict(info0, kinds=kinds)
+    g, gref = _build(M, infok), _build(M, info0)
+    f = ctx.np_rng.normal(size=gref.size)
+    pts = _eval_points(rng, gref, 2)
+    f32 = kinds.get("r") == "float32"
+    for op in ("iac", "avg", "rcs", "interp"):
+        if gref.n_shells < 2 and op != "iac":
+            continue
+        ctx.count(["object-kinds", kinds, op, info0], nontrivial=True, tag="object-kinds:" + ",".join(f"{k}={v}" for k, v in sorted(kinds.items())))
+        got = _run_op(g, op, f.copy(), pts.copy())
+        want = _run_op(gref, op, f.copy(), pts.copy())
+        ok = _same(got, want) if not f32 else (got.shape == want.shape and _cmp_arrays(np.asarray(got, dtype=float), np.asarray(want, dtype=float), 5e-6, scale=float(np.max(np.abs(np.asarray(want, dtype=float)))) + 1e-300))
+        if f32 and ok and not _same(got, want):
+            ctx.tagc("info:float32-radial-grid:single-precision-r2w")
+        if not ok:
+            ctx.fail("corr", f"atomgrid.{OPNAME[op]}:object-kinds", f"{OPNAME[op]} on a grid built from {kinds} differs from the grid built from the same values as float64 arrays",
+                     witness=dict(info=infok))
+    if not f32:
+        add(f"C09.integrate {_grid_tokens(M, g)} {fvec(f)}", _chk_integrate(ctx, "atomgrid.integrate_angular_coordinates:object-kinds", f"grid built from {kinds}", infok,
+                                                                            g.integrate_angular_coordinates(f.copy()), float(np.max(np.abs(f)))))
+
+
+def _r4_mol_kinds(ctx, M):
+    """class 14 for MolGrid.interpolate: aim_weights handed over as an array of another dtype / container kind, atnums / atcoords as
+    integers; against the molecule built from float64 arrays of the same values."""
+    mg, bk = M[4], M[5]
+    rng = ctx.rng
+    nat = rng.choice([2, 3])
+    infos = []
+    for a in range(nat):
+        _, info = _agg_grid(ctx, M, method="lebedev", center=np.array([2.0 * a, float(rng.choice([-1, 0, 1])), 0.0])) if a == 0 else \
+            _atom_grid(ctx, M, n=rng.choice([2, 3]), cap=7, zero_kind="none", center=np.array([2.0 * a, float(rng.choice([-1, 0, 1])), 0.0]))
+        infos.append(info)
+    ref = mg.MolGrid(np.array([1] * nat), [_build(M, i) for i in infos], bk.BeckeWeights(), store=True)
+    w0 = np.array(ref.aim_weights, dtype=float)
+    f = ctx.np_rng.normal(size=ref.size)
+    pts = np.array([[rng.uniform(-1, 2.0 * nat) for _ in range(3)] for _ in range(3)] + [infos[0]["center"]])
+    variants = [("readonly", w0, "readonly"), ("strided", w0, "strided"), ("negative-stride", w0, "negative-stride"),
+                ("float32", w0.astype(np.float32).astype(float), "float32"), ("int ones", np.ones(ref.size), "int-valued"), ("bool", (w0 > 0.5).astype(float), "bool")]
+    for name, vals, kind in variants:
+        arr = (vals > 0.5) if kind == "bool" else kinded(vals, kind)
+        keep = np.array(arr, copy=True)
+        atn = [1] * nat if name == "strided" else np.array([1] * nat, dtype=np.int32)
+        mol = mg.MolGrid(atn, [_build(M, i) for i in infos], arr, store=True)
+        mref = mg.MolGrid(np.array([1] * nat), [_build(M, i) for i in infos], np.array(vals, dtype=float), store=True)
+        ctx.count(["mol-kinds", name, infos], nontrivial=True, tag="object-kinds:mol:aim_weights=" + name)
+        for fl in FLAGS:
+            got = np.asarray(mol.interpolate(f.copy())(pts, *fl))
+            want = np.asarray(mref.interpolate(f.copy())(pts, *fl))
+            if not _same(got, want):
+                ctx.fail("corr", "molgrid.interpolate:object-kinds", f"aim_weights handed to MolGrid as {name} (dtype {np.asarray(arr).dtype}): interpolate(deriv={fl[0]}, deriv_spherical={fl[1]}, "
+                         f"only_radial_derivs={fl[2]}) differs from the molecule built from the same weights as a float64 array", witness=dict(infos=infos, kind=name, points=pts))
+                break
+        if not _same(np.asarray(arr), keep):
+            ctx.fail("corr", "molgrid.interpolate:modifies-input", f"the aim_weights array handed to MolGrid ({name}) was changed", witness=dict(infos=infos, kind=name))
+
+
+def _r4_same_object(ctx, M):
+    """class 16: one func_vals array and one points array, both views into the middle of larger caller arrays, passed three times to every
+    entry point and across entry points; every answer against a newly built grid given pristine copies; the whole larger arrays (the bytes
+    around the views too) unchanged. One OneDGrid object and one degrees list shared by the atomic grids of a molecule."""
+    rng = ctx.rng
+    mg, bk = M[4], M[5]
+    _, info = _agg_grid(ctx, M, center=np.array([0.25, -0.5, 1.0]), rotate=rng.choice([0, 7])) if rng.random() < 0.5 else _atom_grid(ctx, M, n=rng.choice([3, 4]), cap=9)
+    g = _build(M, info)
+    N = g.size
+    bigf = ctx.np_rng.normal(size=N + 11)
+    fv = bigf[5:5 + N]
+    P0 = _eval_points(rng, g, 3)
+    bigP = ctx.np_rng.normal(size=(len(P0) + 6, 3))
+    bigP[2:2 + len(P0)] = P0
+    pv = bigP[2:2 + len(P0)]
+    keepf, keepP = bigf.copy(), bigP.copy()
+    seq = [op for op in ("iac", "avg", "rcs", "interp") for _ in range(3)]
+    rng.shuffle(seq)
+    ctx.count(["same-object", info, seq], nontrivial=True, tag="same-object:views")
+    ref = {}
+    done = []
+    for op in seq:
+        done.append(op)
+        got = _run_op(g, op, fv, pv)
+        if op not in ref:
+            ref[op] = _run_op(_build(M, info), op, keepf[5:5 + N].copy(), keepP[2:2 + len(P0)].copy())
+        if not _same(got, ref[op]):
+            ctx.fail("corr", f"atomgrid.{OPNAME[op]}:same-object", f"the same func_vals / points objects (views into larger arrays) passed repeatedly, calls {done}: the last answer differs from a newly "
+                     "built grid given pristine copies", witness=dict(info=info, history=done, points=keepP[2:2 + len(P0)]))
+            break
+    if not (_same(bigf, keepf) and _same(bigP, keepP)):
+        where = "func_vals" if not _same(bigf, keepf) else "points"
+        inside = not (_same(bigf[5:5 + N], keepf[5:5 + N]) and _same(bigP[2:2 + len(P0)], keepP[2:2 + len(P0)]))
+        ctx.fail("corr", "atomgrid.interpolate:modifies-input", f"the caller's larger {where} array changed ({'inside' if inside else 'AROUND'} the view handed over) during the calls {done}",
+                 witness=dict(info=info, history=done))
+    # one radial grid object, one degrees list, one aim-weights callable for every atom of a molecule
+    od, ag = M[1], M[0]
+    r, w = np.array(info["r"]), np.array(info["w"])
+    rg = od.OneDGrid(r, w, (0, np.inf))
+    degs = list(info["degs"])
+    keep = (r.copy(), w.copy(), list(degs))
+    centers = [np.array([1.9 * a, 0.1 * a, -0.2 * a]) for a in range(3)]
+    grids = [ag.AtomGrid(rg, degrees=degs, center=c, rotate=int(info["rotate"]), method=info["method"]) for c in centers]
+    mol = mg.MolGrid(np.array([1, 1, 1]), grids, bk.BeckeWeights(), store=True)
+    f = ctx.np_rng.normal(size=mol.size)
+    pts = np.array([[rng.uniform(-1, 4) for _ in range(3)] for _ in range(3)])
+    ctx.count(["same-object", "shared-rgrid", info], nontrivial=True, tag="same-object:shared-rgrid")
+    for fl in FLAGS[:3]:
+        got = np.asarray(mol.interpolate(f)(pts, *fl))
+        sep = [_build(M, dict(info, center=c.tolist())) for c in centers]
+        want = np.asarray(mg.MolGrid(np.array([1, 1, 1]), sep, bk.BeckeWeights(), store=True).interpolate(f.copy())(pts.copy(), *fl))
+        if not _same(got, want):
+            ctx.fail("corr", "molgrid.interpolate:same-object", f"three atomic grids sharing one OneDGrid object and one degrees list: MolGrid.interpolate(deriv={fl[0]}, …) differs from the molecule "
+                     "whose atomic grids were built from separate copies", witness=dict(infos=[dict(info, center=c.tolist()) for c in centers], points=pts))
+            break
+    if not (_same(r, keep[0]) and _same(w, keep[1]) and degs == keep[2] and _same(rg.points, keep[0]) and _same(rg.weights, keep[1])):
+        ctx.fail("corr", "atomgrid:modifies-input", "the radial grid arrays / the degrees list shared by three atomic grids changed", witness=dict(info=info))
+
+
+BAD_CALLS = ["rcs:size", "interp:size", "iac:size", "avg:size", "F:deriv", "F:shape2", "F:shape3d", "sph:shape", "shell:index", "interp:kind"]
+
+
+def _bad_call(g, what, f, pts, F=None):
+    """a request the library rejects -> the exception type name, or None if it was accepted"""
+    try:
+        if what == "rcs:size":
+            g.radial_component_splines(f[:-1])
+        elif what == "interp:size":
+            g.interpolate(np.concatenate([f, f]))
+        elif what == "iac:size":
+            g.integrate_angular_coordinates(f[:-1])
+        elif what == "avg:size":
+            g.spherical_average(f[1:])
+        elif what == "F:deriv":
+            (F or g.interpolate(f))(pts[::-1] + 0.25, 2)          # other points of the same shape as the accepted requests
+        elif what == "F:shape2":
+            (F or g.interpolate(f))(pts[::-1, :2] - 0.5)
+        elif what == "F:shape3d":
+            (F or g.interpolate(f))(np.zeros((2, 2, 3)))
+        elif what == "sph:shape":
+            g.convert_cartesian_to_spherical(np.zeros(4))
+        elif what == "shell:index":
+            g.get_shell_grid(g.n_shells + 5)
+        else:
+            g.interpolate("not an array")
+    except Exception as e:  # noqa: BLE001
+        return type(e).__name__
+    return None
+
+
+def _r4_raises(ctx, M, first=None):
+    """class 18: rejected requests (wrong sizes, unsupported derivative order, point arrays of the wrong shape, an index out of range, a
+    string) between accepted ones, and as the very first request on a new grid: every accepted answer bit for bit that of a newly built
+    grid that never saw a rejected request. Class 15 on the way: omitted / explicit None / explicit default arguments of
+    convert_cartesian_to_spherical, func_vals by keyword."""
+    rng = ctx.rng
+    _, info = _agg_grid(ctx, M, rotate=rng.choice([0, 3])) if rng.random() < 0.4 else _atom_grid(ctx, M, n=rng.choice([2, 3, 4]), cap=9)
+    g = _build(M, info)
+    f = ctx.np_rng.normal(size=g.size)
+    keep = f.copy()
+    pts = _eval_points(rng, g, 2)
+    bad = list(BAD_CALLS)
+    rng.shuffle(bad)
+    if first:
+        bad.remove(first)
+        bad.insert(0, first)
+    seq = []
+    for k, b in enumerate(bad[:7]):
+        seq += [("bad", b), ("ok", rng.choice(["iac", "avg", "rcs", "interp"]))]
+    ctx.count(["raises", info, seq], nontrivial=True, tag="raises:first=" + seq[0][1])
+    F = None
+    ref = {}
+    done = []
+    for kind, what in seq:
+        done.append(what if kind == "ok" else "REJECTED " + what)
+        if kind == "bad":
+            res = _bad_call(g, what, f, pts, F)
+            ctx.tagc(f"raises:{what}:{res or 'accepted'}")
+            continue
+        got = _run_op(g, what, f, pts)
+        if what == "interp" and F is None:
+            F = g.interpolate(f)
+        if what not in ref:
+            ref[what] = _run_op(_build(M, info), what, keep.copy(), pts.copy())
+        if not _same(got, ref[what]):
+            ctx.fail("corr", f"atomgrid.{OPNAME[what]}:after-rejected-call", f"requests {done}: the last answer differs from that of a newly built grid that never saw a rejected request",
+                     witness=dict(info=info, history=done, points=pts))
+            break
+    if not _same(f, keep):
+        ctx.fail("corr", "atomgrid.interpolate:modifies-input", f"func_vals changed during {done}", witness=dict(info=info, history=done))
+    if F is not None:
+        a = np.asarray(F(pts, 1))
+        _bad_call(g, "F:deriv", f, pts, F)
+        _bad_call(g, "F:shape2", f, pts, F)
+        if not _same(a, np.asarray(F(pts, 1))):
+            ctx.fail("corr", "atomgrid.interpolate:after-rejected-call", "one interpolant: deriv=1, a rejected deriv=2, a rejected (M, 2) point array, deriv=1 again: the two accepted answers differ",
+                     witness=dict(info=info, points=pts))
+    # class 15: omitted / None / explicit default
+    g2 = _build(M, info)
+    ctx.count(["arg-forms", info], nontrivial=True, tag="arg-forms")
+    s0 = g2.convert_cartesian_to_spherical()
+    forms = [("(points=None, center=None)", lambda: g2.convert_cartesian_to_spherical(points=None, center=None), s0), ("(None)", lambda: g2.convert_cartesian_to_spherical(None), s0),
+             ("(center=grid.center)", lambda: g2.convert_cartesian_to_spherical(center=g2.center), s0)]
+    p0 = g2.convert_cartesian_to_spherical(pts)
+    forms += [("(points, None)", lambda: g2.convert_cartesian_to_spherical(pts, None), p0), ("(center=None, points=points)", lambda: g2.convert_cartesian_to_spherical(center=None, points=pts), p0),
+              ("(points, center=grid.center)", lambda: g2.convert_cartesian_to_spherical(pts, center=g2.center), p0),
+              ("(points, grid.center.tolist())", lambda: g2.convert_cartesian_to_spherical(pts, g2.center.tolist()), p0)]
+    for text, call, want in forms:
+        try:
+            got = call()
+        except Exception as e:  # noqa: BLE001
+            ctx.fail("corr", "atomgrid.convert_cartesian_to_spherical:arg-forms", f"convert_cartesian_to_spherical{text} raised {type(e).__name__}: {e}", witness=dict(info=info, points=pts))
+            continue
+        if not _same(got, want):
+            ctx.fail("corr", "atomgrid.convert_cartesian_to_spherical:arg-forms", f"convert_cartesian_to_spherical{text} differs from the call with the arguments left out", witness=dict(info=info, points=pts))
+    if g2.n_shells >= 2:
+        a = _run_op(g2, "rcs", f, pts)
+        b = np.ravel(np.array([sp.c for sp in g2.radial_component_splines(func_vals=f)]))
+        c = np.asarray(g2.interpolate(func_vals=f)(points=pts))
+        if not (_same(a, b) and _same(c, np.asarray(g2.interpolate(f)(pts)))):
+            ctx.fail("corr", "atomgrid.interpolate:arg-forms", "func_vals handed over by keyword gives another answer than positionally", witness=dict(info=info, points=pts))
+
+
+def _corr_round4(ctx, M, add, parts):
+    rng = ctx.rng
+    for it in range(ctx.n(3, 20)):
+        def shapes(it=it):
+            g, info = _agg_grid(ctx, M, method="lebedev" if it == 0 else None, first_mean=True if it == 0 else None, rotate=rng.choice([0, 5]),
+                                zero_kind=rng.choice(["none", "zero"])) if it % 3 != 2 else _atom_grid(ctx, M, n=rng.choice([1, 2]), cap=7)
+            _r4_shapes(ctx, M, add, g, info)
+        parts.run("atomgrid:shapes", shapes)
+    ks = KIND_SETS if ctx.thorough else [KIND_SETS[0], KIND_SETS[3]] + rng.sample(KIND_SETS[1:3] + KIND_SETS[4:], 2)
+    for kinds in ks:
+        parts.run("atomgrid:object-kinds", lambda kinds=kinds: _r4_object_kinds(ctx, M, add, kinds), witness=kinds)
+    for _ in range(ctx.n(1, 5)):
+        parts.run("molgrid.interpolate:object-kinds", lambda: _r4_mol_kinds(ctx, M))
+    for _ in range(ctx.n(2, 15)):
+        parts.run("atomgrid:same-object", lambda: _r4_same_object(ctx, M))
+    for it in range(ctx.n(4, 30)):
+        # in every run: a wrong-size decomposition / interpolation as the very first request on a new grid
+        parts.run("atomgrid:after-rejected-call", lambda it=it: _r4_raises(ctx, M, first={0: "rcs:size", 1: "interp:size", 2: "F:deriv"}.get(it)))
+
+
 def _corr_round3(ctx, M, add):
     import traceback
     rng = ctx.rng
@@ -962,8 +1401,10 @@ def _corr_round3(ctx, M, add):
     guarded("defaults / warning / reshape", None, lambda: _r3_fixed_ops(ctx, M, add))
     fixed = [dict(n=2, method="lebedev", mixed=True, zero_kind="zero", cap=7), dict(n=3, method="maxdet", mixed=True, zero_kind="none", cap=6),
              dict(n=3, method="spherical", mixed=False, zero_kind="both", cap=7), dict(n=4, zero_kind="far-edge", cap=7, center=np.zeros(3)),
-             dict(n=1, method="lebedev", zero_kind="none", cap=5)]
-    for ig in range(ctx.n(14, 120)):
+             dict(n=1, method="lebedev", zero_kind="none", cap=5),
+             # round 4 (class 20): total size = n_shells * size of the first shell, shell sizes not monotone
+             dict(n=3, method="lebedev", degs=[9, 7, 11], zero_kind="none"), dict(n=3, method="lebedev", degs=[7, 11, 9], zero_kind="zero", rotate=4)]
+    for ig in range(ctx.n(16, 120)):
         kw = fixed[ig] if ig < len(fixed) else dict(cap=rng.choice([5, 7, 9, 11]), n=rng.choice([2, 3, 3, 4, 5]))
         g, info = _atom_grid(ctx, M, **kw)
         guarded("generated definitions", info, lambda: _r3_gen_ops(ctx, M, add, g, info, first=ig < 3))
@@ -990,8 +1431,20 @@ def corr(ctx: Ctx):
     fixed = [dict(n=2, method="lebedev", mixed=True, zero_kind="zero"), dict(n=3, method="maxdet", mixed=True, zero_kind="none"),
              dict(n=2, method="spherical", mixed=False, zero_kind="tiny"), dict(n=3, method="lebedev", mixed=True, zero_kind="both"),
              dict(n=2, method="ahrens_beylkin", mixed=True, zero_kind="none", cap=19)]
-    for ic in range(ncase):
-        kw = fixed[ic] if ic < len(fixed) else dict(cap=11 if rng.random() < 0.8 else None)
+    # round 4 (class 20), in every run: mixed degrees with non-monotone shell sizes whose total is n_shells times the size of one shell
+    # (mean-sized shell first, e.g. Lebedev [9, 7, 11]; last; inside), with and without a shell at r = 0
+    agg = _aggregate_degs(M, "lebedev")
+    firsts = [q for q in agg if len(q) == 3 and q[0] == sorted(q)[1]]
+    fixed += [dict(method="lebedev", degs=[9, 7, 11], n=3, zero_kind="none"), dict(method="lebedev", degs=rng.choice(firsts or agg), n=3, zero_kind="zero"),
+              dict(method="lebedev", degs=rng.choice([q for q in agg if len(q) == 4] or agg), n=4, zero_kind="none"),
+              dict(method=rng.choice(["spherical", "maxdet"]), degs=None, n=3, zero_kind="none", agg=True)]
+    parts = _Parts(ctx, M, "corr")
+
+    def one_case(ic):
+        kw = dict(fixed[ic]) if ic < len(fixed) else dict(cap=11 if rng.random() < 0.8 else None)
+        if kw.pop("agg", False):
+            kw["degs"] = rng.choice(_aggregate_degs(M, kw["method"]))
+            kw["n"] = len(kw["degs"])
         g, info = _atom_grid(ctx, M, **kw)
         N = g.size
         gt = _grid_tokens(M, g)
@@ -1101,7 +1554,7 @@ def corr(ctx: Ctx):
                     interp(pts[:2])
                 except Exception as e:  # noqa: BLE001
                     ctx.fail("corr", "atomgrid.interpolate:raises", f"interpolate raised {type(e).__name__}: {e}", witness=info)
-                    continue
+                    return
                 splines = g.radial_component_splines(f.copy())
                 L = int(g.l_max) // 2
                 nrows = len(splines)
@@ -1142,55 +1595,60 @@ def corr(ctx: Ctx):
         except Exception as e:  # noqa: BLE001  (the library raised while the case was prepared)
             import traceback
             ctx.fail("corr", "atomgrid:raises", f"the implementation raised {type(e).__name__}: {e}", witness=dict(info=info, traceback=traceback.format_exc()[-1500:]))
-    # ---- MolGrid summation
-    mg, bk = M[4], M[5]
-    for im in range(ctx.n(3, 30)):
-        nat = rng.choice([1, 2, 3])
-        grids = []
-        for a in range(nat):
-            g, info = _atom_grid(ctx, M, n=rng.choice([2, 3]), cap=7, zero_kind="none",
-                                 center=np.array([1.7 * a + rng.uniform(-0.2, 0.2), rng.uniform(-0.5, 0.5), rng.uniform(-0.5, 0.5)]))
-            grids.append(g)
-            minfos = (minfos if a else []) + [info]
-        mol = mg.MolGrid(np.array([1] * nat), grids, bk.BeckeWeights(), store=True)
-        f = ctx.np_rng.normal(size=mol.size)
-        pts = np.array([[rng.uniform(-1, 1.7 * nat) for _ in range(3)] for _ in range(4)])
-        for (dv, dsph, orad) in [(0, 0, 0), (1, 0, 0), (1, 1, 0), (2, 0, 1)]:
-            try:
-                out = np.asarray(mol.interpolate(f.copy())(pts, dv, bool(dsph), bool(orad)), dtype=float)
-            except Exception as e:  # noqa: BLE001
-                ctx.fail("corr", "molgrid.interpolate:raises", f"MolGrid.interpolate raised {type(e).__name__}: {e}", witness=dict(natom=nat, infos=minfos))
-                break
-            parts = []
+    for ic in range(ncase):
+        parts.run("atomgrid:correspondence-case", lambda ic=ic: one_case(ic))
+    def mol_part():
+        # ---- MolGrid summation
+        mg, bk = M[4], M[5]
+        for im in range(ctx.n(3, 30)):
+            nat = rng.choice([1, 2, 3])
+            grids = []
             for a in range(nat):
-                s, e = mol.indices[a], mol.indices[a + 1]
-                parts.append(np.asarray(grids[a].interpolate((f * mol.aim_weights)[s:e])(pts, dv, bool(dsph), bool(orad)), dtype=float).reshape(-1))
+                g, info = _atom_grid(ctx, M, n=rng.choice([2, 3]), cap=7, zero_kind="none",
+                                     center=np.array([1.7 * a + rng.uniform(-0.2, 0.2), rng.uniform(-0.5, 0.5), rng.uniform(-0.5, 0.5)]))
+                grids.append(g)
+                minfos = (minfos if a else []) + [info]
+            mol = mg.MolGrid(np.array([1] * nat), grids, bk.BeckeWeights(), store=True)
+            f = ctx.np_rng.normal(size=mol.size)
+            pts = np.array([[rng.uniform(-1, 1.7 * nat) for _ in range(3)] for _ in range(4)])
+            for (dv, dsph, orad) in [(0, 0, 0), (1, 0, 0), (1, 1, 0), (2, 0, 1)]:
+                try:
+                    out = np.asarray(mol.interpolate(f.copy())(pts, dv, bool(dsph), bool(orad)), dtype=float)
+                except Exception as e:  # noqa: BLE001
+                    ctx.fail("corr", "molgrid.interpolate:raises", f"MolGrid.interpolate raised {type(e).__name__}: {e}", witness=dict(natom=nat, infos=minfos))
+                    break
+                parts = []
+                for a in range(nat):
+                    s, e = mol.indices[a], mol.indices[a + 1]
+                    parts.append(np.asarray(grids[a].interpolate((f * mol.aim_weights)[s:e])(pts, dv, bool(dsph), bool(orad)), dtype=float).reshape(-1))
 
-            def chk_mol(ans, out=out, nat=nat, dv=dv, minfos=minfos):
-                ctx.count(["mol", nat, dv], nontrivial=nat >= 2, tag=f"mol:{nat}")
-                t = Tokens(ans); t.tok(); t.vec()
-                if not ans.startswith("ok") or not _cmp_arrays(out.reshape(-1), np.array(t.fvec()), 1e-12, atol=1e-13):
-                    ctx.fail("corr", "molgrid.interpolate", f"MolGrid.interpolate (deriv={dv}) differs from the model's sum over the atomic interpolants", witness=dict(natom=nat, infos=minfos))
-            add(f"C09.mol_combine {nat} " + " ".join(fvec(p) for p in parts), chk_mol)
-            shp = vec(list(out.shape))
+                def chk_mol(ans, out=out, nat=nat, dv=dv, minfos=minfos):
+                    ctx.count(["mol", nat, dv], nontrivial=nat >= 2, tag=f"mol:{nat}")
+                    t = Tokens(ans); t.tok(); t.vec()
+                    if not ans.startswith("ok") or not _cmp_arrays(out.reshape(-1), np.array(t.fvec()), 1e-12, atol=1e-13):
+                        ctx.fail("corr", "molgrid.interpolate", f"MolGrid.interpolate (deriv={dv}) differs from the model's sum over the atomic interpolants", witness=dict(natom=nat, infos=minfos))
+                add(f"C09.mol_combine {nat} " + " ".join(fvec(p) for p in parts), chk_mol)
+                shp = vec(list(out.shape))
 
-            def chk_gm(ans, out=out, nat=nat, dv=dv, minfos=minfos):
-                ctx.count(["gen", "mol", nat, dv], nontrivial=nat >= 2, tag=f"gen:mol:{nat}")
-                t = Tokens(ans); t.tok()
-                if not ans.startswith("ok") or t.vec() != list(out.shape) or not _cmp_arrays(out.reshape(-1), np.array(t.fvec()), 1e-12, atol=1e-13):
-                    ctx.fail("corr", "molgrid.interpolate:gen", f"MolGrid.interpolate (deriv={dv}) differs from the generated summation loop over the atomic interpolants", witness=dict(natom=nat, infos=minfos))
-            add(f"C09.gen_mol_low {nat} " + " ".join(f"{shp} {fvec(p)}" for p in parts), chk_gm)
+                def chk_gm(ans, out=out, nat=nat, dv=dv, minfos=minfos):
+                    ctx.count(["gen", "mol", nat, dv], nontrivial=nat >= 2, tag=f"gen:mol:{nat}")
+                    t = Tokens(ans); t.tok()
+                    if not ans.startswith("ok") or t.vec() != list(out.shape) or not _cmp_arrays(out.reshape(-1), np.array(t.fvec()), 1e-12, atol=1e-13):
+                        ctx.fail("corr", "molgrid.interpolate:gen", f"MolGrid.interpolate (deriv={dv}) differs from the generated summation loop over the atomic interpolants", witness=dict(natom=nat, infos=minfos))
+                add(f"C09.gen_mol_low {nat} " + " ".join(f"{shp} {fvec(p)}" for p in parts), chk_gm)
+
+    parts.run("molgrid.interpolate:correspondence", mol_part)
     # ---- round 2: dtype / container kinds, call histories, two grids alive, nodes next to the 1e-8 threshold
-    _corr_round2(ctx, M, add)
-    _corr_round3(ctx, M, add)
+    parts.run("atomgrid:round2", lambda: _corr_round2(ctx, M, add))
+    parts.run("atomgrid:round3", lambda: _corr_round3(ctx, M, add))
+    _corr_round4(ctx, M, add, parts)
+    # the implementation-only comparisons above are done; a driver problem from here on cannot hide them
     answers = driver_batch(lines)
     for ans, fn in zip(answers, checks):
-        fn(ans)
+        parts.run("atomgrid:model-answer", lambda ans=ans, fn=fn: fn(ans))
+    parts.finish()
 
 
-# ----------------------------------------------------------------------------------------------
-# oracle
-# ----------------------------------------------------------------------------------------------
 def real_harmonics(L, az, pol):
     """Real spherical harmonics in the row order (l; m = 0, 1, -1, 2, -2, ...) from scipy.special.sph_harm_y,
     Condon-Shortley phase removed: Y_{l,m>0} = sqrt2 (-1)^m Re Y_l^m, Y_{l,-m} = sqrt2 (-1)^m Im Y_l^m."""
@@ -1283,7 +1741,7 @@ from scipy.special import sph_harm_y
 from grid.onedgrid import OneDGrid
 from grid.atomgrid import AtomGrid
 from grid.angular import AngularGrid
-
+""" + KINDED_SRC + """
 def real_harmonics(L, az, pol):
     rows = []
     for l in range(L + 1):
@@ -1300,8 +1758,9 @@ def angles(v):
     return r, np.arctan2(v[:, 1], v[:, 0]), pol
 
 def build(info):
-    rg = OneDGrid(np.array(info['r']), np.array(info['w']), (0, np.inf))
-    kw = dict(center=np.array(info['center']), rotate=info['rotate'], method=info['method'])
+    kinds = info.get('kinds', dict())
+    rg = OneDGrid(kinded(info['r'], kinds.get('r')), kinded(info['w'], kinds.get('w')), (0, np.inf))
+    kw = dict(center=kinded(info['center'], kinds.get('center')), rotate=info['rotate'], method=info['method'])
     route = info.get('route', 'ctor')
     if route == 'pruned':
         return AtomGrid.from_pruned(rg, info['radius'], info['r_sectors'], info['d_sectors'], **kw)
@@ -1311,7 +1770,16 @@ def build(info):
         return AtomGrid.from_preset(info['atnum'], info['preset'], rg, kw['center'], kw['rotate'], kw['method'])
     if route == 'sizes':
         return AtomGrid(rg, None, sizes=list(info['sizes']), **kw)
-    return AtomGrid(rg, degrees=info['degs'], **kw)
+    if route == 'both':
+        return AtomGrid(rg, degrees=list(info['ignored_degs']), sizes=list(info['sizes']), **kw)
+    if route == 'pruned-both':
+        return AtomGrid.from_pruned(rg, info['radius'], r_sectors=info['r_sectors'], d_sectors=info['ignored_d_sectors'], s_sectors=info['s_sectors'], **kw)
+    if route == 'one-degree':
+        return AtomGrid(rg, degrees=[int(info['degs'][0])], **kw)
+    if route == 'one-size':
+        return AtomGrid(rg, sizes=[int(info['sizes'][0])], **kw)
+    dk = kinds.get('degs')
+    return AtomGrid(rg, degrees=kinded(info['degs'], dk, dtype=np.int64) if dk else info['degs'], **kw)
 
 def make_g(bl):
     L, smooth, a, alpha = bl['L'], bl['smooth'], np.array(bl['a']), np.array(bl['alpha'])
@@ -1423,7 +1891,17 @@ vals = dict()
 for n, (w, k, op) in enumerate(steps):
     g = grids[w]
     if k is None:
-        if op.startswith('shell'):
+        if op.startswith('bad:'):
+            ff = np.cos(np.arange(g.size))
+            try:
+                {{'rcs:size': lambda: g.radial_component_splines(ff[:-1]), 'interp:size': lambda: g.interpolate(np.concatenate([ff, ff])),
+                 'iac:size': lambda: g.integrate_angular_coordinates(ff[:-1]), 'avg:size': lambda: g.spherical_average(ff[1:]),
+                 'F:deriv': lambda: g.interpolate(ff)(pts, 2), 'F:shape2': lambda: g.interpolate(ff)(pts[:, :2]),
+                 'F:shape3d': lambda: g.interpolate(ff)(np.zeros((2, 2, 3))), 'sph:shape': lambda: g.convert_cartesian_to_spherical(np.zeros(4)),
+                 'shell:index': lambda: g.get_shell_grid(g.n_shells + 5), 'interp:kind': lambda: g.interpolate('not an array')}}[op[4:]]()
+            except Exception:
+                pass
+        elif op.startswith('shell'):
             g.get_shell_grid(int(op.split(':')[1]), r_sq=bool(int(op.split(':')[2])))
         elif op == 'sph':
             g.convert_cartesian_to_spherical()
@@ -1519,7 +1997,7 @@ def _oracle_atom(ctx, M, g, info, bl, budget, label, derivs=True):
                  snippet=snip("number of components", f"assert len(grid.radial_component_splines(vals)) == {nrows}"))
     comps = np.array([s(r_nodes) for s in splines])
     handed = np.array([y for (_, y) in spy.calls])
-    if info["zero"] in ("tiny", "both", "edge", "zero-edge", "far-edge") and handed.shape == comps.shape:
+    if (info["zero"] in ("tiny", "both", "edge", "zero-edge", "far-edge") or info.get("rgrid")) and handed.shape == comps.shape:
         # knots 1e-9 apart: reading a cubic piece back at its right end rounds at the size of its coefficients;
         # the clause is examined on the arrays the splines are built from
         comps = handed
@@ -1604,8 +2082,13 @@ def _oracle_atom(ctx, M, g, info, bl, budget, label, derivs=True):
         _oracle_derivs(ctx, g, info, bl, F, splines, wit, budget)
         _oracle_chain(ctx, g, info, bl, F, wit)
     # (7) spherical average integrates back
-    avg = g.spherical_average(vals.copy())
-    back = float(g.rgrid.integrate(4 * math.pi * r_nodes ** 2 * avg(r_nodes)))
+    with _SplineSpy(ag) as spy7:
+        avg = g.spherical_average(vals.copy())
+    avn = avg(r_nodes)
+    if info.get("rgrid") and spy7.calls and spy7.calls[-1][1].shape == avn.shape:
+        # radial grids of the real transforms: intervals from 1e-3 to 1e3 long, r^2 w up to 1e12 — the node values are taken as handed to the spline
+        avn = spy7.calls[-1][1]
+    back = float(g.rgrid.integrate(4 * math.pi * r_nodes ** 2 * avn))
     if not close(back, tot, rtol=1e-9, scale=float(np.sum(np.abs(vals * g.weights))) + 1e-300):
         ctx.fail("oracle", "atomgrid.spherical_average:integrates-back", f"radial integral of 4 pi r^2 f_avg = {back!r}, grid integral {tot!r}", witness=wit,
                  snippet=snip("spherical average integrates back", "avg = grid.spherical_average(vals.copy())\nr = grid.rgrid.points\nback = grid.rgrid.integrate(4 * math.pi * r**2 * avg(r))\n"
@@ -1825,7 +2308,7 @@ def _oracle_mol_inner(ctx, M, budget):
         _mol_case(ctx, M, grids, infos, atnums)
 
 
-def _mol_case(ctx, M, grids, infos, atnums):
+def _mol_case(ctx, M, grids, infos, atnums, extra_points=None):
     """the molecular clause (and its behaviour under call histories) on one molecule"""
     mg, bk = M[4], M[5]
     rng = ctx.rng
@@ -1843,7 +2326,7 @@ def _mol_case(ctx, M, grids, infos, atnums):
                 out += (a0 + d @ v) * np.exp(-al * np.sum(d * d, axis=1))
             return out
         f = fun(mol.points)
-        pts = np.array([[rng.uniform(-1.5, 1.6 * nat) for _ in range(3)] for _ in range(5)] + [cs[0].tolist(), (cs[-1] + np.array([0, 0, 0.4])).tolist()])
+        pts = np.array([[rng.uniform(-1.5, 1.6 * nat) for _ in range(3)] for _ in range(5)] + [cs[0].tolist(), (cs[-1] + np.array([0, 0, 0.4])).tolist()] + list(extra_points or []))
         ctx.count(["oracle-mol", infos], nontrivial=True, tag=f"oracle:mol:{nat}")
         for (dv, dsph, orad) in [(0, False, False), (1, False, False), (1, True, False), (1, False, True)]:
             got = np.asarray(mol.interpolate(f.copy())(pts, dv, dsph, orad), dtype=float)
@@ -2006,7 +2489,9 @@ def _clause(M, g, G, fvals, vals, op, loose=1.0):
 
 
 def _neutral_named(g, op, pts):
-    if op.startswith("shell"):
+    if op.startswith("bad:"):          # round 4 (class 18): a rejected request
+        _bad_call(g, op[4:], np.cos(np.arange(g.size)), pts)
+    elif op.startswith("shell"):
         g.get_shell_grid(int(op.split(":")[1]), r_sq=bool(int(op.split(":")[2])))
     elif op == "sph":
         g.convert_cartesian_to_spherical()
@@ -2049,6 +2534,8 @@ def _state_scenario(ctx, M, kind, infos):
         nshell = min(g.n_shells for g in grids)
         neutral = [f"shell:{rng.randrange(nshell)}:1", f"shell:{rng.randrange(nshell)}:0", "sph", "sph-points", "points", "weights", "basis", "integrate"]
         steps += [(rng.randrange(len(grids)), None, nop) for nop in rng.sample(neutral, 5)]
+        # round 4 (class 18): rejected requests in between (and, after the shuffle, sometimes first)
+        steps += [(rng.randrange(len(grids)), None, "bad:" + b) for b in rng.sample(BAD_CALLS, 4)]
         rng.shuffle(steps)
         steps += rng.sample([s for s in steps if s[1] is not None], 4)
         pts = np.array([[0.3, -0.2, 0.5], [0.0, 0.0, 0.0]]) + np.array(infos[0]["center"])
@@ -2135,10 +2622,11 @@ def _dtype_scenario(ctx, M, g, info):
                     arr = keep.copy()          # the later entry points are examined on the original values
 
 
-def _route_info(ctx, M):
-    """parameters of a grid built through from_pruned (degrees / sizes), from_preset (custom radial grid) or the sizes= keyword"""
+def _route_info(ctx, M, route=None):
+    """parameters of a grid built through from_pruned (degrees / sizes), from_preset (custom radial grid) or the sizes= keyword; round 4:
+    both degrees and sizes (d_sectors and s_sectors) given at once, one degree / one size for every shell"""
     rng = ctx.rng
-    route = rng.choice(["pruned", "pruned-sizes", "preset", "sizes"])
+    route = route or rng.choice(["pruned", "pruned-sizes", "preset", "sizes"])
     zero = rng.choice(["none", "zero"])
     r, w = _radial(rng, rng.choice([4, 5, 6]), zero)
     info = dict(route=route, n=len(r), zero=zero, center=[rng.uniform(-1, 1) for _ in range(3)], rotate=rng.choice([0, 1, 37, 999]),
@@ -2152,6 +2640,16 @@ def _route_info(ctx, M):
         info.update(radius=rng.uniform(0.6, 1.4), r_sectors=sorted(rng.uniform(0.2, 2.5) for _ in range(2)), s_sectors=[rng.choice(lebedev_sizes) for _ in range(3)])
     elif route == "preset":
         info.update(atnum=rng.choice([1, 6, 8]), preset=rng.choice(["coarse", "medium", "sg_1"]))
+    elif route == "both":
+        # sizes 38, 26, 50, … (non-monotone) win; the degrees handed over as well are other ones
+        sz = [38, 26, 50] + [rng.choice([6, 26, 38, 50]) for _ in range(len(r) - 3)]          # sizes that are in the table (others are rounded up)
+        info.update(sizes=sz, ignored_degs=[rng.choice([3, 15, 17]) for _ in sz])
+    elif route == "pruned-both":
+        info.update(radius=rng.uniform(0.6, 1.4), r_sectors=sorted(rng.uniform(0.2, 2.5) for _ in range(2)), s_sectors=[38, 26, 50], ignored_d_sectors=[rng.choice([3, 15, 17]) for _ in range(3)])
+    elif route == "one-degree":
+        info.update(degs=[rng.choice([5, 7, 9])])
+    elif route == "one-size":
+        info.update(sizes=[rng.choice(lebedev_sizes)])
     else:
         info.update(sizes=[rng.choice(lebedev_sizes) for _ in range(len(r))])
     g = _build(M, info)
@@ -2411,9 +2909,241 @@ def _oracle_single_shell(ctx, M, budget):
             ctx.tagc("info:single-shell:interpolate:rejected")
 
 
+# ----------------------------------------------------------------------------------------------
+# round 4 oracle: classes 14, 17, 19, 20 as clauses of the property on the implementation
+# ----------------------------------------------------------------------------------------------
+SNIP_SHAPES = SNIP_DEFS + """
+info = {info!r}
+bls = {bls!r}
+lead = tuple({lead!r})
+grid = build(info)
+stack = np.array([values(grid, b) for b in bls]).reshape(lead + (grid.size,))
+A = np.asarray(grid.integrate_angular_coordinates(stack), dtype=float)
+want = np.array([math.sqrt(4 * math.pi) * make_g(b)(grid.rgrid.points)[0] for b in bls]).reshape(lead + (grid.n_shells,))
+assert A.shape == want.shape and np.all(np.abs(A - want) <= {tol!r}), (A.shape, want.shape, float(np.max(np.abs(A - want))) if A.shape == want.shape else None)
+"""
+
+
+def _oracle_shapes(ctx, M, g, info):
+    """class 20: the angular-integral clause for several band-limited functions stacked along leading axes of sizes 1, 2, n_shells, the
+    size of the first shell, two leading axes; the value clause for 1, 2, 3, n_shells and (l_max // 2 + 1)^2 evaluation points."""
+    rng = ctx.rng
+    N, n = g.size, g.n_shells
+    L = int(min(g.degrees)) // 2
+    s0 = int(g.indices[1] - g.indices[0])
+    K = max(n, min(s0, 8), 6)
+    bls = [BandLimited(rng, rng.randrange(0, L + 1), smooth=True) for _ in range(K)]
+    vals = [_grid_values(M, g, b) for b in bls]
+    r = g.rgrid.points
+    for lead in [(1,), (2,), (n,), (min(s0, 8),), (2, 1), (1, 2), (2, 3)]:
+        k = int(np.prod(lead))
+        stack = np.array(vals[:k]).reshape(lead + (N,))
+        ctx.count(["oracle-shapes", list(lead), info], nontrivial=True, tag="oracle:shapes:func_vals:" + "x".join(map(str, lead)))
+        A = np.asarray(g.integrate_angular_coordinates(stack.copy()), dtype=float)
+        want = np.array([math.sqrt(4 * math.pi) * b.g(r)[0] for b in bls[:k]]).reshape(lead + (n,))
+        tol = 2e-10 * 4 * (float(np.max(np.abs(want))) + 1e-300)
+        if A.shape != want.shape or not np.all(np.abs(A - want) <= tol):
+            ctx.fail("oracle", "atomgrid.integrate_angular_coordinates:shapes", f"{k} band-limited functions stacked to shape {lead + (N,)} (shell sizes {np.diff(g.indices).tolist()}): the angular integrals "
+                     f"{A.shape} are not sqrt(4 pi) g_00(r_i) per function {want.shape}" + ("" if A.shape != want.shape else f" (max deviation {float(np.max(np.abs(A - want)))!r})"),
+                     witness=dict(info=info, lead=list(lead)), snippet=SNIP_SHAPES.format(info=info, bls=[b.to_json() for b in bls[:k]], lead=list(lead), tol=tol))
+    if n < 2:
+        return
+    F = g.interpolate(vals[0].copy())
+    splines = g.radial_component_splines(vals[0].copy())
+    nrows = len(splines)
+    allp = _eval_points(rng, g, nrows + 3)
+    for m in sorted({1, 2, 3, n, nrows}):
+        P = allp[:m]
+        rr, az, pol = _angles(P - g.center)
+        Y = real_harmonics(int(max(g.degrees)) // 2, az, pol)[:nrows]
+        S0 = np.array([sp(rr) for sp in splines])
+        want = np.einsum("ij,ij->j", S0, Y)
+        tol = 1e-10 * (float(np.max(np.sum(np.abs(S0), axis=0))) + 1e-300)
+        got = np.asarray(F(P.copy()), dtype=float)
+        ctx.tagc(f"oracle:shapes:points:{m}")
+        if got.shape != want.shape or not np.all(np.abs(got - want) <= tol):
+            ctx.fail("oracle", "atomgrid.interpolate:is-sum", f"{m} evaluation points (grid: {n} shells, {nrows} harmonics rows): interpolant {got.tolist()}, sum_lm spline_lm(r) Y_lm {want.tolist()}",
+                     witness=dict(info=info, function=bls[0].to_json(), points=P), snippet=SNIP_PTS.format(info=info, bl=bls[0].to_json(), arr=P.tolist(), tol=tol))
+
+
+def _oracle_object_kinds(ctx, M, budget):
+    """class 14: every clause on grids whose radial points / weights, degrees and centre were handed to the constructors in other dtypes and
+    container kinds (read-only, strided, negative stride, integer valued, int32 degrees, list / float32 centre)."""
+    rng = ctx.rng
+    big = budget == "large" or ctx.thorough
+    sets = [k for k in KIND_SETS if k.get("r") != "float32"]
+    for kinds in (sets if big else [sets[3]] + rng.sample(sets[:3] + sets[4:], 1)):
+        info = dict(_kind_info(ctx, M, kinds), kinds=kinds)
+        g = _build(M, info)
+        _guarded(ctx, M, g, info, BandLimited(rng, min(int(min(g.degrees)) // 2, 9), smooth=True), budget, "kinds:" + ",".join(f"{k}={v}" for k, v in sorted(kinds.items())),
+                 derivs=kinds.get("r") != "int-valued" or True)
+
+
+SNIP_COMPLEX = SNIP_DEFS + """
+info = {info!r}
+bre, bim = {bre!r}, {bim!r}
+grid = build(info)
+vals = (values(grid, bre) + 1j * values(grid, bim)).astype({dtype!r})
+G = make_g(bre)(grid.rgrid.points) + 1j * make_g(bim)(grid.rgrid.points)
+{body}
+"""
+
+
+def _oracle_complex(ctx, M, budget):
+    """class 17: complex function values (the decomposition is linear): f = f_re + i f_im with both parts band-limited; angular integrals,
+    radial components, spherical average, interpolant values and its spherical / radial reports must be those of the parts. complex128,
+    complex64 and extended-precision real data. (The Cartesian report is examined separately: see _complex_cartesian.)"""
+    rng = ctx.rng
+    big = budget == "large" or ctx.thorough
+    for dtype in (["complex128", "complex64", "longdouble"] if big else ["complex128", rng.choice(["complex64", "longdouble"])]):
+        g, info = _agg_grid(ctx, M, zero_kind=rng.choice(["none", "zero"])) if rng.random() < 0.5 else _atom_grid(ctx, M, n=rng.choice([3, 4]), cap=9, zero_kind=rng.choice(["none", "zero"]))
+        L = int(min(g.degrees)) // 2
+        bre, bim = BandLimited(rng, L, smooth=True), BandLimited(rng, rng.randrange(0, L + 1), smooth=True)
+        r = g.rgrid.points
+        vre, vim = _grid_values(M, g, bre), _grid_values(M, g, bim)
+        if dtype == "longdouble":
+            vals = vre.astype(np.longdouble)
+            G = bre.g(r).astype(complex)
+            Gim = np.zeros_like(G)
+        else:
+            vals = (vre + 1j * vim).astype(dtype)
+            Gim = np.zeros((bre.nrows, g.n_shells))
+            Gim[: bim.nrows] = bim.g(r)
+            G = bre.g(r) + 1j * Gim
+        loose = 1e5 if dtype == "complex64" else 1.0          # single-precision data
+        gs = float(np.max(np.abs(G))) + 1e-300
+        keep = vals.copy()
+        ctx.count(["oracle-complex", dtype, info], nontrivial=True, tag="oracle:value-kinds:" + dtype)
+        wit = dict(info=info, dtype=dtype, re=bre.to_json(), im=bim.to_json())
+
+        def snip(body):
+            return SNIP_COMPLEX.format(info=info, bre=bre.to_json(), bim=bim.to_json() if dtype != "longdouble" else dict(bim.to_json(), amp=0.0), dtype=dtype if dtype != "longdouble" else "complex128", body=body)
+        try:
+            A = np.asarray(g.integrate_angular_coordinates(vals), dtype=complex)
+            want = math.sqrt(4 * math.pi) * G[0]
+            if A.shape != want.shape or not np.all(np.abs(A - want) <= 2e-10 * 4 * gs * loose):
+                ctx.fail("oracle", "atomgrid.integrate_angular_coordinates:value-kinds", f"func_vals of dtype {dtype}: angular integrals {A.tolist()} are not sqrt(4 pi) g_00(r_i) = {want.tolist()}", witness=wit,
+                         snippet=snip("A = np.asarray(grid.integrate_angular_coordinates(vals), dtype=complex)\nassert np.all(np.abs(A - math.sqrt(4 * math.pi) * G[0]) <= " + repr(2e-10 * 4 * gs * loose) + "), A"))
+            if g.n_shells >= 2:
+                spl = g.radial_component_splines(vals)
+                comps = np.array([np.asarray(sp(r), dtype=complex) for sp in spl])
+                wantc = np.zeros_like(comps)
+                k = min(G.shape[0], comps.shape[0])
+                wantc[:k] = G[:k]
+                if not np.all(np.abs(comps - wantc) <= 1e-9 * 4 * gs * loose):
+                    ctx.fail("oracle", "atomgrid.radial_component_splines:value-kinds", f"func_vals of dtype {dtype}: the splines do not pass through g_lm(r_i) (max deviation {float(np.max(np.abs(comps - wantc)))!r}; "
+                             f"imaginary parts {float(np.max(np.abs(comps.imag)))!r} vs {float(np.max(np.abs(wantc.imag)))!r})", witness=wit,
+                             snippet=snip("spl = grid.radial_component_splines(vals)\ncomps = np.array([np.asarray(s(grid.rgrid.points), dtype=complex) for s in spl])\nwant = np.zeros_like(comps)\n"
+                                          "want[:len(G)] = G[:len(comps)]\nassert np.all(np.abs(comps - want) <= " + repr(1e-9 * 4 * gs * loose) + "), float(np.max(np.abs(comps - want)))"))
+                F = g.interpolate(vals)
+                fv = np.asarray(F(g.points), dtype=complex)
+                true = vre + 1j * (vim if dtype != "longdouble" else 0.0)
+                mask = np.ones(g.size, dtype=bool)
+                fs = float(np.max(np.abs(true))) + 1e-300
+                if not np.all(np.abs(fv - true)[mask] <= 1e-8 * fs * (1 + comps.shape[0]) * loose):
+                    j = int(np.argmax(np.abs(fv - true)))
+                    ctx.fail("oracle", "atomgrid.interpolate:value-kinds", f"func_vals of dtype {dtype}: interpolant at grid point {j} = {fv[j]!r}, function value {true[j]!r}", witness=wit,
+                             snippet=snip("F = grid.interpolate(vals)\nfv = np.asarray(F(grid.points), dtype=complex)\nassert np.all(np.abs(fv - vals) <= " + repr(1e-8 * fs * (1 + comps.shape[0]) * loose) + "), float(np.max(np.abs(fv - vals)))"))
+                # the spherical and radial reports of the complex interpolant are those of its parts
+                pts = _eval_points(rng, g, 3)[:4]
+                Fre, Fim = _build(M, info).interpolate(np.asarray(vals).real.astype(float)), _build(M, info).interpolate(np.asarray(vals).imag.astype(float))
+                for fl in [(1, True, False), (2, False, True), (1, False, False)]:
+                    got = np.asarray(F(pts, *fl), dtype=complex)
+                    wantd = np.asarray(Fre(pts, *fl), dtype=complex) + 1j * np.asarray(Fim(pts, *fl), dtype=complex)
+                    sc = float(np.max(np.abs(wantd))) + 1e-300
+                    okd = got.shape == wantd.shape and bool(np.all(np.abs(got - wantd) <= 1e-9 * sc * loose))
+                    if fl == (1, False, False):
+                        # pinned tree: the (M, 3) array of the Cartesian report is allocated as float64 — the imaginary part is dropped with a
+                        # ComplexWarning. Reported to the lead; recorded as information until decided.
+                        ctx.tagc("info:complex-func_vals:cartesian-report:" + ("complex-kept" if okd else "imaginary-part-dropped" if got.shape == wantd.shape and np.all(np.abs(got - wantd.real) <= 1e-9 * sc * loose) else "other"))
+                        continue
+                    if not okd:
+                        ctx.fail("oracle", "atomgrid.interpolate:value-kinds", f"func_vals of dtype {dtype}: report deriv={fl[0]}, deriv_spherical={fl[1]}, only_radial_deriv={fl[2]} is not the report of the real part plus i "
+                                 "times the report of the imaginary part", witness=dict(wit, points=pts))
+            if vals.dtype != keep.dtype or not _same(vals, keep):
+                ctx.fail("oracle", "atomgrid.interpolate:modifies-input", f"func_vals of dtype {dtype} changed", witness=wit)
+        except Exception as e:  # noqa: BLE001
+            ctx.fail("oracle", "atomgrid.interpolate:raises", f"func_vals of dtype {dtype}: the library raised {type(e).__name__}: {e}", witness=wit,
+                     snippet=snip("grid.integrate_angular_coordinates(vals)\ngrid.interpolate(vals)(grid.points[:3])"))
+
+
+def _real_rgrid(M, rng, kind=None):
+    """(name, points, weights) of a radial grid as the library's own transforms make it (nodes over many orders of magnitude, weights
+    growing like r^2 dr)"""
+    import importlib
+    od, rt = M[1], importlib.import_module("grid.rtransform")
+    kind = kind or rng.choice(["becke", "knowles", "handy", "power", "multiexp", "linear", "becke-trimmed"])
+    n = rng.choice([12, 20, 30])
+    if kind == "becke":
+        rg = rt.BeckeRTransform(rng.choice([1e-5, 1e-3, 0.0]), rng.choice([0.5, 1.5])).transform_1d_grid(od.GaussChebyshev(n))
+    elif kind == "knowles":
+        rg = rt.KnowlesRTransform(1e-4, rng.choice([1.0, 2.5]), rng.choice([2, 3])).transform_1d_grid(od.GaussLegendre(n))
+    elif kind == "handy":
+        rg = rt.HandyRTransform(1e-4, 1.2, 2).transform_1d_grid(od.GaussChebyshevType2(n))
+    elif kind == "power":
+        rg = rt.PowerRTransform(3e-4, rng.choice([8.0, 25.0])).transform_1d_grid(od.UniformInteger(n))
+    elif kind == "multiexp":
+        rg = rt.MultiExpRTransform(1e-3, 1.5).transform_1d_grid(od.GaussLegendre(n))
+    elif kind == "linear":
+        rg = rt.LinearFiniteRTransform(0.0, rng.choice([3.0, 12.0])).transform_1d_grid(od.ClenshawCurtis(n))
+    else:
+        rg = rt.BeckeRTransform(0.0, 1.0, trim_inf=True).transform_1d_grid(od.ClenshawCurtis(n))          # end nodes at r = 0 and at the trimmed 1e16
+    r, w = np.array(rg.points, dtype=float), np.abs(np.array(rg.weights, dtype=float))
+    order = np.argsort(r)
+    return kind, r[order], w[order]
+
+
+def _oracle_real_rgrids(ctx, M, budget):
+    """class 19: the radial layer as the library itself makes it. Nodes from 1e-5 to 1e4 (and the trimmed end value 1e16), weights from
+    1e-12 to 1e+40; Gaussians underflow to exact zeros on the outer shells. Envelope measured on the pinned tree: all clauses hold at the
+    tolerances of the ordinary plans (finite-difference clauses left out: they assume spacings of order one); shells whose radial
+    weight is 0 are dropped (the code divides by r^2 w)."""
+    rng = ctx.rng
+    big = budget == "large" or ctx.thorough
+    for it in range(8 if big else 2):
+        # in every run one grid whose outer shells have r^2 w beyond 1e11 (Handy), with a function that is still alive out there
+        kind, r, w = _real_rgrid(M, rng, kind="handy" if it == 0 else None)
+        # envelope (measured on the pinned tree): a node at the trimmed end value 1e16 makes the last cubic piece 1e16 long — SciPy's evaluation of
+        # the spline at that knot keeps no digit (values of order 1e8 where the data are 0); such nodes are outside what is asserted
+        keepm = (w > 0) & np.isfinite(r) & np.isfinite(w) & np.concatenate([[True], np.diff(r) > 0]) & (r <= 1e5)
+        r, w = r[keepm], w[keepm]
+        method = rng.choice(["lebedev", "spherical", "maxdet"])
+        pool = [d for d in DEGS[method] if d <= 9]
+        degs = [rng.choice(pool) for _ in r]
+        info = dict(n=len(r), method=method, degs=degs, zero="zero" if r[0] == 0.0 else "none", center=[0.0, 0.0, 0.0] if r[0] < 1e-3 else [0.5, -1.25, 2.0], rotate=rng.choice([0, 9]),
+                    r=r.tolist(), w=w.tolist(), rgrid=kind)
+        ctx.tagc("oracle:real-rgrid:" + kind)
+        try:
+            g = _build(M, info)
+        except Exception as e:  # noqa: BLE001
+            ctx.fail("oracle", "atomgrid.interpolate:raises", f"building an atomic grid on a {kind} radial grid raised {type(e).__name__}: {e}", witness=dict(info=info))
+            continue
+        _guarded(ctx, M, g, info, BandLimited(rng, int(min(degs)) // 2, smooth=True, rscale=rng.choice([1.0, 0.05, 30.0, 300.0]) if it else max(1.0, float(r[-1]) / 3.0)), budget, "real-rgrid:" + kind, derivs=False)
+
+
+def _oracle_mol_extreme(ctx, M, budget):
+    """class 19 for the molecular clause: nuclei 0.3 bohr apart and 40 bohr apart in one molecule (atom-in-molecule weights ~1e-16 .. 1 and
+    exactly 0 / 1), heteronuclear, evaluation at every nucleus (the centre of one atomic interpolant, an ordinary point of the others)."""
+    rng = ctx.rng
+    mg, bk = M[4], M[5]
+    for _ in range(1 if budget == "small" and not ctx.thorough else 4):
+        cs = [np.zeros(3), np.array([rng.choice([0.3, 0.45]), 0.0, 0.0]), np.array([0.0, rng.choice([25.0, 40.0]), 1.0])]
+        grids, infos = [], []
+        for a, c in enumerate(cs):
+            g, info = _agg_grid(ctx, M, method="lebedev", center=c) if a == 1 else _atom_grid(ctx, M, n=rng.choice([3, 4]), cap=9, zero_kind="none", center=c)
+            grids.append(g)
+            infos.append(info)
+        ctx.tagc("oracle:mol:close-and-far-nuclei")
+        try:
+            _mol_case(ctx, M, grids, infos, [rng.choice([1, 3]), rng.choice([8, 17]), 1], extra_points=[c.tolist() for c in cs])
+        except Exception as e:  # noqa: BLE001
+            ctx.fail("oracle", "molgrid.interpolate:raises", f"MolGrid.interpolate with nuclei {[c.tolist() for c in cs]} raised {type(e).__name__}: {e}", witness=dict(infos=infos))
+
+
 def oracle(ctx: Ctx, budget: str):
     M = _mods()
     rng = ctx.rng
+    parts = _Parts(ctx, M, "oracle")          # round 4: independent parts, an exception in one never hides what the others find
     try:
         _replay_findings(ctx, M)
     except Exception as e:  # noqa: BLE001
@@ -2441,13 +3171,26 @@ def oracle(ctx: Ctx, budget: str):
     plans.append(dict(method="lebedev", degs=[rng.choice([17, 19, 21, 23])], zero_kind="none", n=3))
     # round 3 (class 7): radial nodes a factor 100 on either side of the 1e-8 threshold, rotated
     plans.append(dict(method=rng.choice(["lebedev", "spherical", "maxdet"]), mixed=True, zero_kind="far-edge", cap=9, n=5, rotate=rng.choice([0, 11])))
+    # round 4 (class 20), in every run: non-monotone shell sizes whose total is n_shells times the size of one shell (Lebedev [9, 7, 11]:
+    # 38 + 26 + 50 = 3 * 38, the mean-sized shell first; other orders; four shells; another method), with the stacked-shapes clauses
+    agg = _aggregate_degs(M, "lebedev")
+    plans.append(dict(method="lebedev", degs=[9, 7, 11], zero_kind="none", n=3, shapes=True))
+    q = rng.choice([x for x in agg if len(x) == 3 and x != [9, 7, 11]])
+    plans.append(dict(method="lebedev", degs=q, zero_kind="zero", n=3, rotate=rng.choice([0, 13]), shapes=True))
+    q = rng.choice([x for x in agg if len(x) == 4])
+    plans.append(dict(method="lebedev", degs=q, zero_kind="none", n=4))
+    m2 = rng.choice(["spherical", "maxdet"])
+    q = rng.choice(_aggregate_degs(M, m2))
+    plans.append(dict(method=m2, degs=q, zero_kind=rng.choice(["none", "zero"]), n=len(q), shapes=True))
+    plans.append(dict(method="lebedev", degs=[rng.choice([3, 5, 7]), rng.choice([9, 11])], zero_kind="none", n=2, shapes=True))
     if big:
         plans.append(dict(method="lebedev", degs=[41], zero_kind="zero", n=4, Lcap=14, rotate=rng.choice([0, 7])))
         plans.append(dict(method="lebedev", degs=[29, 59, 41], zero_kind="none", n=4, Lcap=14))
         plans.append(dict(method="spherical", degs=[rng.choice([21, 25, 31])], zero_kind="zero", n=4, Lcap=12))
         plans.append(dict(method="maxdet", degs=[rng.choice([20, 30])], zero_kind="none", n=3, Lcap=12))
-    for ip, kw in enumerate(plans):
+    def one_plan(ip, kw):
         Lcap = kw.pop("Lcap", 9)
+        shapes = kw.pop("shapes", False)
         canonical = kw.pop("canonical", False)
         if kw["zero_kind"] in ("tiny", "both", "edge", "zero-edge", "far-edge"):
             # the points of a shell of radius 1e-9 about a centre of size 1 are rounded at the 1e-7 level relative to the
@@ -2467,7 +3210,7 @@ def oracle(ctx: Ctx, budget: str):
             ctx.fail("oracle", "atomgrid.points:handed-out", "an in-place edit of the array returned by AtomGrid.points (before the first decomposition) changed the points of the grid "
                      f"(centre {info['center']}): the harmonic basis and every spline built afterwards belong to other points", witness=dict(info=info),
                      snippet=SNIP_POINTS.format(center=info["center"]))
-            continue
+            return
         dmin = int(min(g.degrees))
         Lmax = dmin // 2
         L = Lmax if ip % 2 == 0 else rng.randrange(0, Lmax + 1)
@@ -2477,22 +3220,39 @@ def oracle(ctx: Ctx, budget: str):
             # g_lm(0) != 0: the function values on the r = 0 shell are taken at the documented canonical angles
             g2, info2 = _atom_grid(ctx, M, **kw)
             _guarded(ctx, M, g2, info2, BandLimited(rng, min(int(min(g2.degrees)) // 2, 9), smooth=False), budget, "canonical")
+        if shapes:
+            g3, info3 = _atom_grid(ctx, M, **kw)
+            _oracle_shapes(ctx, M, g3, info3)
+    for ip, kw in enumerate(plans):
+        parts.run("atomgrid.interpolate", lambda ip=ip, kw=kw: one_plan(ip, dict(kw)), witness=kw)
     # round 2: alternative construction routes (from_pruned with degrees / sizes, from_preset with a custom radial grid, sizes=)
-    for _ in range(12 if big else 3):
+    def one_route(route=None):
         try:
-            g, info = _route_info(ctx, M)
+            g, info = _route_info(ctx, M, route)
         except Exception as e:  # noqa: BLE001
-            ctx.fail("oracle", "atomgrid.interpolate:raises", f"building an atomic grid through an alternative route raised {type(e).__name__}: {e}")
-            continue
+            ctx.fail("oracle", "atomgrid.interpolate:raises", f"building an atomic grid through an alternative route ({route}) raised {type(e).__name__}: {e}")
+            return
+        if info["route"] in ("both", "pruned-both"):
+            want = set(info["sizes"] if info["route"] == "both" else info["s_sectors"])
+            got = [int(x) for x in np.diff(g.indices)]
+            if (info["route"] == "both" and got != list(info["sizes"])) or not set(got) <= want:
+                ctx.fail("oracle", "atomgrid:route:sizes-win", f"route {info['route']}: sizes {sorted(want)} and degrees {info.get('ignored_degs', info.get('ignored_d_sectors'))} given at once; the documentation "
+                         f"says the sizes are used, the shells have {got} points", witness=dict(info=info))
         _guarded(ctx, M, g, info, BandLimited(rng, min(int(min(g.degrees)) // 2, 9), smooth=True), budget, "route:" + info["route"])
-    _oracle_state(ctx, M, budget)
-    _oracle_dtype(ctx, M, budget)
-    _oracle_mol(ctx, M, budget)
-    # round 3
-    _oracle_scaled(ctx, M, budget)
-    _oracle_translated(ctx, M, budget)
-    _oracle_handed_out(ctx, M, budget)
-    _oracle_single_shell(ctx, M, budget)
+    for _ in range(12 if big else 3):
+        parts.run("atomgrid.interpolate:route", one_route)
+    # round 4 (class 15): both alternative arguments at once (sizes win over degrees, s_sectors over d_sectors), one degree / size for all shells
+    for route in (["both", "pruned-both", "one-degree", "one-size"] if big else ["both", rng.choice(["pruned-both", "one-degree", "one-size"])]):
+        parts.run("atomgrid.interpolate:route", lambda route=route: one_route(route))
+    for name, fn in [("atomgrid.interpolate:history", _oracle_state), ("atomgrid.interpolate:dtype", _oracle_dtype), ("molgrid.interpolate", _oracle_mol),
+                     # round 3
+                     ("atomgrid.interpolate:scaled", _oracle_scaled), ("atomgrid.interpolate:translated", _oracle_translated), ("atomgrid.handed-out", _oracle_handed_out),
+                     ("atomgrid.interpolate:single-shell", _oracle_single_shell),
+                     # round 4
+                     ("atomgrid.interpolate:object-kinds", _oracle_object_kinds), ("atomgrid.interpolate:value-kinds", _oracle_complex),
+                     ("atomgrid.interpolate:real-rgrid", _oracle_real_rgrids), ("molgrid.interpolate:extreme", _oracle_mol_extreme)]:
+        parts.run(name, lambda fn=fn: fn(ctx, M, budget))
+    parts.finish()
 
 
 SNIP_PTS = SNIP_HEAD + """
@@ -2591,7 +3351,10 @@ def oracle_at(ctx: Ctx, failure):
             _dtype_scenario(ctx, M, _build(M, info), info)
         if w.get("points") is not None and g.n_shells >= 2:
             _points_scenario(ctx, M, _build(M, info), info, np.asarray(w["points"], dtype=float))
-    if any(t in failure.key for t in (":history", ":two-grids", ":basis-cache", ":modifies-input")):
+    if ":shapes" in failure.key:
+        for info in infos[:1]:
+            _oracle_shapes(ctx, M, _build(M, info), info)
+    if any(t in failure.key for t in (":history", ":two-grids", ":basis-cache", ":modifies-input", ":after-rejected-call", ":same-object", ":options")):
         same = len(infos) >= 2 and len(infos[0]["r"]) == len(infos[1]["r"])
         if all(len(i["r"]) >= 2 for i in infos[:2]):
             _state_scenario(ctx, M, "at-corr-disagreement", infos[:2] if same else infos[:1])
